@@ -201,6 +201,22 @@ func c07CompactOrder(e *Env) {
 			okName = true
 		}
 	}
+	// the writer may be built by a helper that is handed the name (`openWriter(compacted)`)
+	for _, ci := range ir.CallsIn(fn, func(c *ssa.CallCommon) bool {
+		h := c.StaticCallee()
+		return h != nil && e.P.Funcs[h] && h.Blocks != nil && rootFn(h).Package() == rootFn(fn).Package()
+	}) {
+		h := ci.Common().StaticCallee()
+		for _, ev := range e.C.FieldStores(h, "target") {
+			for k, hp := range h.Params {
+				if ir.Resolve(ev.Val) == ssa.Value(hp) && k < len(ci.Common().Args) {
+					if suf, ok := strSuffix(e, ci.Common().Args[k], 0); ok && strings.HasSuffix(suf, ".dat") {
+						okName = true
+					}
+				}
+			}
+		}
+	}
 	r.Check(okName, "Compact: the copy is written under a *.dat name", e.Pos(fn.Pos()),
 		"the compacted copy is written under a name the history queries' *.dat patterns do not match")
 }
@@ -289,14 +305,27 @@ func strSuffix(e *Env, v ssa.Value, depth int) (string, bool) {
 }
 
 func c07AppendOnly(e *Env) {
-	r := e.R
-	r.Rule("C07.append-only", "AGR+DCS (call-chain conditions)", "the history store opens existing files for writing only O_APPEND without O_TRUNC; truncating creation only when the file is absent", 1)
-	const oWronly, oRdwr, oAppend, oTrunc, oCreate, oExcl = 0x1, 0x2, 0x400, 0x200, 0x40, 0x80
 	sp := e.P.Pkg(jsondbRel)
 	if sp == nil {
-		r.Unknown("package "+jsondbRel, "-", "not found")
+		e.R.Rule("C07.append-only", "AGR+DCS (call-chain conditions)", "the history store opens existing files for writing only O_APPEND without O_TRUNC; truncating creation only when the file is absent", 1)
+		e.R.Unknown("package "+jsondbRel, "-", "not found")
 		return
 	}
+	var roots []*ssa.Function
+	for _, f := range e.RepoFuncsSorted() {
+		if f.Parent() == nil && f.Package() == sp {
+			roots = append(roots, f)
+		}
+	}
+	appendOnlyFrom(e, "C07.append-only", "the history store opens existing files for writing only O_APPEND without O_TRUNC; truncating creation only when the file is absent", "history store", "a history file that may already hold recorded lines", roots)
+}
+
+// appendOnlyFrom: every open-for-writing reachable from the roots through repository
+// functions is append-only (O_APPEND, no O_TRUNC) unless the file is known to be new.
+func appendOnlyFrom(e *Env, rule, desc, who, what string, roots []*ssa.Function) {
+	r := e.R
+	r.Rule(rule, "AGR+DCS (call-chain conditions)", desc, 1)
+	const oWronly, oRdwr, oAppend, oTrunc, oCreate, oExcl = 0x1, 0x2, 0x400, 0x200, 0x40, 0x80
 	absent := func(lits []ir.NLit) bool { // a dominating "file does not exist" test
 		return HasVal(lits, func(v ssa.Value) bool {
 			c, ok := ir.Resolve(v).(*ssa.Call)
@@ -346,36 +375,48 @@ func c07AppendOnly(e *Env) {
 						nApp++
 					}
 					r.Check(okf, ShortFn(g)+": os.OpenFile for writing is append-only (O_APPEND, no O_TRUNC) unless the file is new", e.InstrPos(ci),
-						sprintf("a history file that may already hold recorded lines is opened with flags %#x: a status update or a re-opened run overwrites recorded lines from offset 0 or truncates them", fl), "reached through "+chain, e.FactsStr("conditions: ", lits))
+						sprintf("%s is opened with flags %#x: what is written next overwrites the recorded bytes from offset 0 or truncates them", what, fl), "reached through "+chain, e.FactsStr("conditions: ", lits))
 				case "os.Create":
 					if reported[ci] {
 						continue
 					}
 					reported[ci] = true
 					r.Check(absent(lits), ShortFn(g)+": os.Create only when the file does not exist", e.InstrPos(ci),
-						"os.Create (truncating) can be applied to an existing history file", "reached through "+chain, e.FactsStr("conditions: ", lits))
+						"os.Create (truncating) can be applied to "+what, "reached through "+chain, e.FactsStr("conditions: ", lits))
 				case "os.WriteFile", "io/ioutil.WriteFile", "os.Truncate", "(*os.File).Truncate":
 					if reported[ci] {
 						continue
 					}
 					reported[ci] = true
-					r.Bad(ShortFn(g)+": "+shortCallee(c)+" on a history file", e.InstrPos(ci), "truncating write in the history store", "reached through "+chain)
+					r.Bad(ShortFn(g)+": "+shortCallee(c)+" on "+what, e.InstrPos(ci), "truncating write in the "+who, "reached through "+chain)
 				default:
 					if sc := c.StaticCallee(); sc != nil && e.P.Funcs[sc] {
 						walk(sc, lits, chain+"→"+ShortFn(sc), depth+1, seen)
+					} else if sc == nil && !c.IsInvoke() {
+						// a call of a function value (`for _, prepare := range []func() error{n.setupLog, …}`):
+						// the repository functions of the same package the call graph offers
+						if n := e.P.CG.Nodes[g]; n != nil {
+							for _, ed := range n.Out {
+								if ed.Site != ci || !e.P.Funcs[ed.Callee.Func] {
+									continue
+								}
+								for _, t := range append([]*ssa.Function{ed.Callee.Func}, boundTargets(ed.Callee.Func)...) {
+									if e.P.Funcs[t] && t.Synthetic == "" && rootFn(t).Package() == rootFn(f).Package() {
+										walk(t, lits, chain+"→"+ShortFn(t), depth+1, seen)
+									}
+								}
+							}
+						}
 					}
 				}
 			}
 		}
 	}
-	for _, f := range e.RepoFuncsSorted() {
-		if f.Parent() != nil || f.Package() != sp {
-			continue
-		}
+	for _, f := range roots {
 		walk(f, nil, ShortFn(f), 0, map[*ssa.Function]bool{})
 	}
 	if nApp == 0 {
-		r.Bad("history store: an append-mode open exists", "-", "no O_APPEND open is reachable from the history store: status lines cannot be appended to an existing run file")
+		r.Bad(who+": an append-mode open exists", "-", "no O_APPEND open is reachable from the "+who+": nothing can be appended to an existing file")
 	}
 }
 
@@ -628,9 +669,36 @@ func c07Candidates(e *Env) {
 					idx = k
 				}
 			}
-			sites := e.callSitesAll(f)
-			if len(sites) == 0 || idx < 0 {
+			var sites []ssa.CallInstruction
+			for _, cs := range e.callSitesAll(f) {
+				if cs.Parent() != nil && cs.Parent().Synthetic == "" { // not the compiler's wrappers
+					sites = append(sites, cs)
+				}
+			}
+			// the receiver of a method reached through an interface (sort.Interface): every
+			// value of the receiver's type that is turned into an interface in the repository
+			var boxed []ssa.Value
+			if idx == 0 && f.Signature.Recv() != nil {
+				for _, g := range e.RepoFuncsSorted() {
+					if g.Synthetic != "" {
+						continue
+					}
+					for _, b := range g.Blocks {
+						for _, in := range b.Instrs {
+							if mi, ok := in.(*ssa.MakeInterface); ok && types.Identical(mi.X.Type(), x.Type()) {
+								boxed = append(boxed, mi.X)
+							}
+						}
+					}
+				}
+			}
+			if (len(sites) == 0 && len(boxed) == 0) || idx < 0 {
 				return false, "parameter of " + ShortFn(f) + " (no call site in the repository)"
+			}
+			for _, bv := range boxed {
+				if ok, why := accepted(bv, seen, d+1); !ok {
+					return false, why
+				}
 			}
 			for _, cs := range sites {
 				args := cs.Common().Args
@@ -670,12 +738,12 @@ func c07Candidates(e *Env) {
 			return false, "a freshly built list at " + e.InstrPos(v.(ssa.Instruction))
 		}
 		if in, ok := v.(ssa.Instruction); ok {
-			return false, "list computed at " + e.InstrPos(in)
+			return false, sprintf("list computed at %s (%T %s in %s)", e.InstrPos(in), v, v.String(), ShortFn(in.Parent()))
 		}
 		return false, "list of unknown origin"
 	}
 	for _, f := range e.RepoFuncsSorted() {
-		if rootFn(f).Package() != sp {
+		if rootFn(f).Package() != sp || f.Synthetic != "" {
 			continue
 		}
 		seenBase := map[ssa.Value]bool{}
@@ -700,4 +768,16 @@ func c07Candidates(e *Env) {
 			}
 		}
 	}
+}
+
+// boundTargets: the methods a compiler-made wrapper ($bound, $thunk) forwards to.
+func boundTargets(w *ssa.Function) []*ssa.Function {
+	if w.Synthetic == "" {
+		return nil
+	}
+	var out []*ssa.Function
+	for _, ci := range ir.CallsIn(w, func(c *ssa.CallCommon) bool { return c.StaticCallee() != nil }) {
+		out = append(out, ci.Common().StaticCallee())
+	}
+	return out
 }
